@@ -83,29 +83,26 @@ func addPathFor(k, afi, safi int) bool {
 }
 
 // malformed returns "" for an UPDATE that is well-formed in the sense of C19, else the violated clause:
-// lengths | attr-length | prefix-length | mandatory-attrs. reach reports whether it announces anything.
+// lengths-<which> | attr-length | prefix-length | mandatory-attrs.
 func malformed(m []byte, k int) (clause string) {
 	if len(m) < 23 {
-		return "lengths"
+		return "lengths-fields-exceed-message"
 	}
 	body := m[19:]
 	wlen := int(body[0])<<8 | int(body[1])
 	if 2+wlen+2 > len(body) {
-		return "lengths"
+		return "lengths-fields-exceed-message"
 	}
 	wd, ok := walkNLRIs(body[2:2+wlen], 1, addPathFor(k, 1, 1))
 	if !ok {
-		return "lengths"
+		return "lengths-withdrawn-overrun"
 	}
 	tpal := int(body[2+wlen])<<8 | int(body[3+wlen])
 	if 4+wlen+tpal > len(body) {
-		return "lengths"
+		return "lengths-fields-exceed-message"
 	}
 	attrs := body[4+wlen : 4+wlen+tpal]
-	nl, ok := walkNLRIs(body[4+wlen+tpal:], 1, addPathFor(k, 1, 1))
-	if !ok {
-		return "lengths"
-	}
+	nl, nlok := walkNLRIs(body[4+wlen+tpal:], 1, addPathFor(k, 1, 1))
 	asnSize := 2
 	if k&4 != 0 {
 		asnSize = 4
@@ -122,20 +119,20 @@ func malformed(m []byte, k int) (clause string) {
 	i := 0
 	for i < len(attrs) {
 		if i+3 > len(attrs) {
-			return "lengths"
+			return "lengths-attrs-overrun"
 		}
 		flags, typ := attrs[i], int(attrs[i+1])
 		var L, h int
 		if flags&0x10 != 0 {
 			if i+4 > len(attrs) {
-				return "lengths"
+				return "lengths-attrs-overrun"
 			}
 			L, h = int(attrs[i+2])<<8|int(attrs[i+3]), 4
 		} else {
 			L, h = int(attrs[i+2]), 3
 		}
 		if i+h+L > len(attrs) {
-			return "lengths"
+			return "lengths-attrs-overrun"
 		}
 		v := attrs[i+h : i+h+L]
 		i += h + L
@@ -226,6 +223,9 @@ func malformed(m []byte, k int) (clause string) {
 		if bad {
 			attrLen = "attr-length"
 		}
+	}
+	if !nlok {
+		return "lengths-nlri-overrun"
 	}
 	if attrLen != "" {
 		return attrLen
@@ -319,7 +319,7 @@ func guardStack(f func()) (panicked bool, val interface{}) {
 			for _, l := range strings.Split(string(debug.Stack()), "\n") {
 				l = strings.TrimSpace(l)
 				if where == "" && strings.Contains(l, ".go:") && !strings.Contains(l, "verif_hooks") &&
-					!strings.Contains(l, "/harness/") && strings.Contains(l, "/repo") && !strings.HasPrefix(l, "runtime") {
+					!strings.Contains(l, "/harness/") && strings.Contains(l, repoDir) && !strings.HasPrefix(l, "runtime") {
 					if i := strings.Index(l, " "); i >= 0 {
 						l = l[:i]
 					}
@@ -336,6 +336,13 @@ func guardStack(f func()) (panicked bool, val interface{}) {
 	f()
 	return false, nil
 }
+
+var repoDir = func() string {
+	if d := os.Getenv("VERIF_REPO"); d != "" {
+		return d
+	}
+	return "/repo"
+}()
 
 var tr *hx.Trace
 var nviol int
